@@ -207,12 +207,12 @@ func genC21r(t *rapid.T) srvCase {
 		at := rapid.IntRange(2, len(ops)).Draw(t, "dat")
 		ops = append(append(append([]sop{}, ops[:at]...), pat...), ops[at:]...)
 	}
-	return srvCase{Ops: ops}
+	return srvCase{Ops: ops, PerDir: rapid.IntRange(0, 2).Draw(t, "perdir") != 0}
 }
 
 var specC21r = vstat.Spec[srvCase]{
 	Property: "C21",
-	Rule: "relay side: the real relay Server with two attached identities; histories of 3-12 honest sends, acknowledgements and clears naming the last delivered/sent message or a bogus seqno, and held relay loops; " +
+	Rule: "relay side: the real relay Server with two attached identities; message seqnos counted per direction from 1 (as real clients do, so both directions carry equal numbers) in two thirds of the cases; histories of 3-12 honest sends, acknowledgements and clears naming the last delivered/sent message or a bogus seqno, and held relay loops; " +
 		"oracle (the delivery and ack/clear clauses of the C20 check): a peer is told 'acknowledged n' only if it submitted n and n was delivered to the partner before; 'cleared n' only for a message that was delivered to it; non-trivial = an unsolicited acknowledgement or clear",
 	Gen: genC21r,
 	Check: func(c srvCase) vstat.Outcome {
